@@ -261,7 +261,10 @@ def h_component(m: int, cm: int, shard=None) -> None:
     pshape, pheads = PARENT_SHAPES[shard["parent"]]
     with concrete():
         ids = sorted(pshape)
+        from vf.xh import sweep_should_stop
         for pins in _pin_assignments(pshape, m):
+            if sweep_should_stop():
+                return
             for ptags in itertools.chain.from_iterable(itertools.combinations(ids, k) for k in range(len(ids) + 1)):
                 for pmatch in (set(), {ids[-1]}, {ids[0]}):
                     run_component_case(m, cmatch, shard["parent"], pins, set(ptags), pmatch, shard.get("ncomp", 1), shard.get("double_top", False))
